@@ -314,6 +314,7 @@ type Res struct {
 	ErrMay  bool   // resolution may fail (an excluded context holds a failing reference)
 	TEx     string // typed view not asserted
 	SEx     string // string view not asserted
+	UErrMay bool   // the original text of a typed value may be lost (then it cannot go into a string field)
 	Wrapped bool   // a whole-value reference to a non-string value (keeps value + original text)
 	Leak    bool   // shape of listed finding nested-expanded-value
 	KnownA  bool   // shape of listed finding escaped-ref-rewritten
@@ -336,6 +337,27 @@ func (r *Res) absorb(c ctxRes, typed, str bool) {
 	}
 	if c.knownA {
 		r.KnownA = true
+	}
+}
+
+// absorbOriginal takes the verdict on the original text of a typed value.  A
+// failing expansion of the original text is swallowed by the resolver (the
+// value then has no text and cannot go into a string field) -- except a
+// cycle, which exhausts the rounds of the enclosing loop and is reported.
+func (r *Res) absorbOriginal(c ctxRes) {
+	switch {
+	case c.err == "cycle":
+		if r.Err == "" {
+			r.Err = "cycle"
+		}
+	case c.err != "":
+		r.SEx, r.UErrMay = "original-error", true
+	default:
+		r.absorb(c, false, true)
+		r.Str = c.text
+		if c.ex != "" {
+			r.UErrMay = true
+		}
 	}
 }
 
@@ -491,12 +513,7 @@ func (w *world) evalSeq(seq []Seg, stack []string, depth int) Res {
 		w.count("whole-typed-scalar")
 		r.Typed, r.Wrapped = v, true
 		c := w.evalStr(es, nstack) // the original text is expanded as a string too (e.g. "# ${x}" is a YAML null)
-		if c.err != "" {
-			r.SEx = "original-error"
-		} else {
-			r.absorb(c, false, true)
-			r.Str = c.text
-		}
+		r.absorbOriginal(c)
 		return r
 	case "struct":
 		if strings.Contains(text, "$") {
@@ -562,6 +579,7 @@ func (w *world) evalStruct(v Val, stack []string, depth int) Res {
 				r.TEx = lr.TEx
 			}
 			r.ErrMay = r.ErrMay || lr.ErrMay
+			r.UErrMay = r.UErrMay || lr.UErrMay
 			r.KnownA = r.KnownA || lr.KnownA
 			if lr.Wrapped || lr.Leak || lr.TEx != "" {
 				r.Leak = true // (an unasserted leaf may end up as a whole-value reference too)
@@ -587,13 +605,7 @@ func (w *world) evalStruct(v Val, stack []string, depth int) Res {
 		return nil
 	}
 	r.Typed = build(v)
-	c := w.evalStr(structSeq(v), stack)
-	if c.err != "" {
-		r.SEx = "original-error"
-	} else {
-		r.absorb(c, false, true)
-		r.Str = c.text
-	}
+	r.absorbOriginal(w.evalStr(structSeq(v), stack))
 	return r
 }
 
@@ -640,6 +652,7 @@ func mergeRes(a *Res, r Res) {
 		a.SEx = r.SEx
 	}
 	a.ErrMay = a.ErrMay || r.ErrMay
+	a.UErrMay = a.UErrMay || r.UErrMay
 	a.Leak = a.Leak || r.Leak
 	a.KnownA = a.KnownA || r.KnownA
 }
